@@ -5,6 +5,8 @@ CONSTANTS
   HS = {"h0", "h1"}
   Threads = {1, 2}
   PinKeyArgs = FALSE
+  MaxReg = 1
+  RegDesign = "keyed"
   MaxLevel = 12
 CONSTRAINT Bounded
 INVARIANT Transparent
